@@ -485,4 +485,140 @@ theorem positionsFrom_append (p : Nat) (l : List Nat) (x : Nat) :
   | nil => simp [positionsFrom]
   | cons a rest ih => simp [positionsFrom, ih, Nat.add_assoc]
 
+/-! ### re-running dict writes -/
+section W
+variable {κ ν : Type} [DecidableEq κ]
+
+theorem aset_keys_of_mem {k : κ} {v : ν} : ∀ {d : List (κ × ν)}, k ∈ d.map (·.1) → (aset k v d).map (·.1) = d.map (·.1)
+  | [], h => by simp at h
+  | (k', v') :: rest, h => by
+    by_cases hk : k' = k
+    · simp [aset, hk]
+    · simp only [List.map_cons, List.mem_cons] at h
+      have : k ∈ rest.map (·.1) := by
+        rcases h with h | h
+        · exact absurd h.symm hk
+        · exact h
+      simp [aset, hk, aset_keys_of_mem this]
+
+theorem aset_of_not_mem {k : κ} {v : ν} : ∀ {d : List (κ × ν)}, k ∉ d.map (·.1) → aset k v d = d ++ [(k, v)]
+  | [], _ => rfl
+  | (k', v') :: rest, h => by
+    simp only [List.map_cons, List.mem_cons, not_or] at h
+    have hk : ¬ k' = k := fun e => h.1 e.symm
+    simp [aset, hk, aset_of_not_mem h.2]
+
+theorem mem_keys_aset (k : κ) (v : ν) : ∀ d : List (κ × ν), k ∈ (aset k v d).map (·.1)
+  | [] => by simp [aset]
+  | (k', v') :: rest => by
+    by_cases hk : k' = k
+    · simp [aset, hk]
+    · simp only [aset, hk, if_false, List.map_cons, List.mem_cons]
+      exact Or.inr (mem_keys_aset k v rest)
+
+theorem keys_sub_aset (k : κ) (v : ν) {x : κ} : ∀ {d : List (κ × ν)}, x ∈ d.map (·.1) → x ∈ (aset k v d).map (·.1)
+  | [], h => by simp at h
+  | (k', v') :: rest, h => by
+    by_cases hk : k' = k
+    · subst hk; simpa [aset] using h
+    · simp only [List.map_cons, List.mem_cons] at h
+      simp only [aset, hk, if_false, List.map_cons, List.mem_cons]
+      rcases h with h | h
+      · exact Or.inl h
+      · exact Or.inr (keys_sub_aset k v h)
+
+theorem keys_sub_asetAll {x : κ} : ∀ (ws : List (κ × ν)) {d : List (κ × ν)}, x ∈ d.map (·.1) → x ∈ (asetAll d ws).map (·.1)
+  | [], _, h => h
+  | w :: ws, d, h => by
+    simp only [asetAll, List.foldl_cons]
+    exact keys_sub_asetAll ws (keys_sub_aset w.1 w.2 h)
+
+theorem written_keys_asetAll : ∀ (ws : List (κ × ν)) (d : List (κ × ν)) (w : κ × ν), w ∈ ws → w.1 ∈ (asetAll d ws).map (·.1)
+  | [], _, _, h => by cases h
+  | w0 :: ws, d, w, h => by
+    simp only [asetAll, List.foldl_cons]
+    simp only [List.mem_cons] at h
+    rcases h with h | h
+    · subst h; exact keys_sub_asetAll ws (mem_keys_aset _ _ d)
+    · exact written_keys_asetAll ws _ w h
+
+theorem aset_overwrite (k : κ) (u v : ν) : ∀ d : List (κ × ν), aset k v (aset k u d) = aset k v d
+  | [] => by simp [aset]
+  | (k', v') :: rest => by
+    by_cases hk : k' = k
+    · simp [aset, hk]
+    · simp [aset, hk, aset_overwrite k u v rest]
+
+theorem aset_comm {k k' : κ} (hne : k' ≠ k) (u v' : ν) : ∀ {d : List (κ × ν)}, k ∈ d.map (·.1) →
+    aset k' v' (aset k u d) = aset k u (aset k' v' d)
+  | [], h => by simp at h
+  | (a, b) :: rest, h => by
+    by_cases ha : a = k
+    · subst ha
+      have : ¬ a = k' := fun e => hne e.symm
+      simp [aset, this]
+    · simp only [List.map_cons, List.mem_cons] at h
+      have hr : k ∈ rest.map (·.1) := by
+        rcases h with h | h
+        · exact absurd h.symm ha
+        · exact h
+      by_cases ha' : a = k'
+      · subst ha'; simp [aset, ha]
+      · simp [aset, ha, ha', aset_comm hne u v' hr]
+
+theorem aset_absorb {k : κ} (u v : ν) : ∀ (ws : List (κ × ν)) {d : List (κ × ν)}, k ∈ d.map (·.1) →
+    aset k v (asetAll (aset k u d) ws) = aset k v (asetAll d ws)
+  | [], d, _ => by simp [asetAll, aset_overwrite]
+  | (k', v') :: ws, d, h => by
+    simp only [asetAll, List.foldl_cons]
+    by_cases hk : k' = k
+    · subst hk; rw [aset_overwrite]
+    · rw [aset_comm hk u v' h]
+      exact aset_absorb u v ws (keys_sub_aset k' v' h)
+
+theorem aset_append_of_mem {k : κ} {v : ν} (e : κ × ν) : ∀ {d : List (κ × ν)}, k ∈ d.map (·.1) →
+    aset k v (d ++ [e]) = aset k v d ++ [e]
+  | [], h => by simp at h
+  | (a, b) :: rest, h => by
+    by_cases ha : a = k
+    · simp [aset, ha]
+    · simp only [List.map_cons, List.mem_cons] at h
+      have hr : k ∈ rest.map (·.1) := by
+        rcases h with h | h
+        · exact absurd h.symm ha
+        · exact h
+      simp [aset, ha, aset_append_of_mem e hr]
+
+theorem asetAll_append_entry (e : κ × ν) : ∀ (ws : List (κ × ν)) {d : List (κ × ν)},
+    (∀ w ∈ ws, w.1 ∈ d.map (·.1)) → asetAll (d ++ [e]) ws = asetAll d ws ++ [e]
+  | [], _, _ => rfl
+  | w :: ws, d, h => by
+    simp only [asetAll, List.foldl_cons]
+    rw [aset_append_of_mem e (h w (List.mem_cons_self ..))]
+    apply asetAll_append_entry e ws
+    intro w' hw'
+    exact keys_sub_aset _ _ (h w' (List.mem_cons_of_mem _ hw'))
+
+theorem asetAll_idem_rev : ∀ (rs : List (κ × ν)) (d : List (κ × ν)),
+    asetAll (asetAll d rs.reverse) rs.reverse = asetAll d rs.reverse
+  | [], _ => rfl
+  | (k, v) :: rs, d => by
+    have ih := asetAll_idem_rev rs
+    simp only [List.reverse_cons]
+    rw [asetAll_append d, asetAll_append (asetAll (asetAll d rs.reverse) [(k, v)])]
+    show aset k v (asetAll (aset k v (asetAll d rs.reverse)) rs.reverse) = aset k v (asetAll d rs.reverse)
+    by_cases hm : k ∈ (asetAll d rs.reverse).map (·.1)
+    · rw [aset_absorb v v rs.reverse hm, ih]
+    · rw [aset_of_not_mem hm, asetAll_append_entry (k, v) rs.reverse, ih, ← aset_of_not_mem hm, aset_idem]
+      intro w hw
+      exact written_keys_asetAll rs.reverse d w hw
+
+/-- Re-running a sequence of dict assignments on its own result changes nothing (why not resetting
+`_translations` between `xml()` calls is harmless for the entries `_setup_translations` writes). -/
+theorem asetAll_idem (d ws : List (κ × ν)) : asetAll (asetAll d ws) ws = asetAll d ws := by
+  have := asetAll_idem_rev ws.reverse d
+  simpa using this
+
+end W
+
 end Pyxv.Process
